@@ -5,9 +5,11 @@ operations without slot shifting).
 import HipVerif.Lemmas.Slots
 namespace HipVerif.Slots
 
-theorem mkVals_own {loc locB} : ∀ (n : Nat) (s : St), OwnL s loc locB →
+variable {fl : Bool}
+
+theorem mkVals_own {loc locB} : ∀ (n : Nat) (s : St), OwnL fl s loc locB →
     (mkVals n s).1.length = n ∧ (mkVals n s).2.v = s.v ∧
-      OwnL (mkVals n s).2 ((mkVals n s).1 ++ loc) locB
+      OwnL fl (mkVals n s).2 ((mkVals n s).1 ++ loc) locB
   | 0, _, h => ⟨rfl, rfl, h⟩
   | n + 1, s, h => by
     have h1 := h.mkVal
@@ -17,7 +19,7 @@ theorem mkVals_own {loc locB} : ∀ (n : Nat) (s : St), OwnL s loc locB →
     obtain ⟨L, rest, e1, e2, e3, e4⟩ := ho
     exact ⟨L, rest, e1, e2, e3, e4.perm (by perm_tac)⟩
 
-theorem iTryPush_own {s loc locB} (h : OwnL s loc locB) : OwnL (iTryPush s).2 loc locB := by
+theorem iTryPush_own {s loc locB} (h : OwnL fl s loc locB) : OwnL fl (iTryPush s).2 loc locB := by
   unfold iTryPush
   have h1 := h.mkVal
   generalize s.onMem Mem.mkVal = r at h1
@@ -27,7 +29,7 @@ theorem iTryPush_own {s loc locB} (h : OwnL s loc locB) : OwnL (iTryPush s).2 lo
   · exact h1.store (by assumption)
   · exact h1.retId
 
-theorem iPush_own {s loc locB} (h : OwnL s loc locB) : OwnL (iPush s).2 loc locB := by
+theorem iPush_own {s loc locB} (h : OwnL fl s loc locB) : OwnL fl (iPush s).2 loc locB := by
   unfold iPush
   have h1 := h.mkVal
   generalize s.onMem Mem.mkVal = r at h1
@@ -42,8 +44,8 @@ theorem take_one_drop {α} (l : List α) (i : Nat) (h : i < l.length) :
   rw [List.drop_eq_getElem_cons h]; rfl
 
 /-- the last element is taken out of the container: `read(len-1); set_len(len-1)` -/
-theorem OwnL.take_last {s loc locB} (h : OwnL s loc locB) (hpos : s.v.len ≠ 0) :
-    ∃ a, s.v.get (s.v.len - 1) = .init a ∧ OwnL (s.setLen (s.v.len - 1)) (a :: loc) locB := by
+theorem OwnL.take_last {s loc locB} (h : OwnL fl s loc locB) (hpos : s.v.len ≠ 0) :
+    ∃ a, s.v.get (s.v.len - 1) = .init a ∧ OwnL fl (s.setLen (s.v.len - 1)) (a :: loc) locB := by
   obtain ⟨tl, h1, h2, h3⟩ := h.setLen_take (n := s.v.len - 1) (by omega)
   have hlen : tl.length = 1 := by omega
   match tl, hlen with
@@ -59,7 +61,7 @@ theorem OwnL.take_last {s loc locB} (h : OwnL s loc locB) (hpos : s.v.len ≠ 0)
     rw [this] at h1
     simpa using h1
 
-theorem iPop_own {s loc locB} (h : OwnL s loc locB) : OwnL (iPop s).2 loc locB := by
+theorem iPop_own {s loc locB} (h : OwnL fl s loc locB) : OwnL fl (iPop s).2 loc locB := by
   unfold iPop
   split
   · exact h
@@ -67,8 +69,8 @@ theorem iPop_own {s loc locB} (h : OwnL s loc locB) : OwnL (iPop s).2 loc locB :
     simp only [St.onMem_eq, h1, Mem.readMove]
     exact OwnL.retId h2
 
-theorem iTruncate_own {s loc locB} (n : Nat) (h : OwnL s loc locB) :
-    OwnL (iTruncate n s).2 loc locB := by
+theorem iTruncate_own {s loc locB} (n : Nat) (h : OwnL fl s loc locB) :
+    OwnL fl (iTruncate n s).2 loc locB := by
   unfold iTruncate
   split
   · obtain ⟨tl, h1, _, h3⟩ := h.setLen_take (n := n) (by omega)
@@ -78,8 +80,8 @@ theorem iTruncate_own {s loc locB} (n : Nat) (h : OwnL s loc locB) :
     exact h3.dropLoop
   · exact h
 
-theorem iFillGen_own {loc locB} : ∀ (k : Nat) (s : St), OwnL s loc locB →
-    s.v.len + k ≤ s.v.cap → OwnL (iFillGen k s).2 loc locB
+theorem iFillGen_own {loc locB} : ∀ (k : Nat) (s : St), OwnL fl s loc locB →
+    s.v.len + k ≤ s.v.cap → OwnL fl (iFillGen k s).2 loc locB
   | 0, _, h, _ => h
   | k + 1, s, h, hc => by
     unfold iFillGen
@@ -89,8 +91,8 @@ theorem iFillGen_own {loc locB} : ∀ (k : Nat) (s : St), OwnL s loc locB →
     · have hc' : s'.v.len < s'.v.cap := by rw [h1.2]; omega
       exact iFillGen_own k _ (h1.1.store hc') (by simp [h1.2]; omega)
 
-theorem iResizeWith_own {s loc locB} (n : Nat) (h : OwnL s loc locB) :
-    OwnL (iResizeWith n s).2 loc locB := by
+theorem iResizeWith_own {s loc locB} (n : Nat) (h : OwnL fl s loc locB) :
+    OwnL fl (iResizeWith n s).2 loc locB := by
   unfold iResizeWith
   split
   · split
@@ -98,8 +100,8 @@ theorem iResizeWith_own {s loc locB} (n : Nat) (h : OwnL s loc locB) :
     · exact h
   · exact iTruncate_own n h
 
-theorem iFillClone_own {loc locB} (x : Nat) : ∀ (k : Nat) (s : St), OwnL s loc locB →
-    s.v.len + k ≤ s.v.cap → OwnL (iFillClone x k s).2 loc locB
+theorem iFillClone_own {loc locB} (x : Nat) : ∀ (k : Nat) (s : St), OwnL fl s loc locB →
+    s.v.len + k ≤ s.v.cap → OwnL fl (iFillClone x k s).2 loc locB
   | 0, _, h, _ => h
   | k + 1, s, h, hc => by
     unfold iFillClone
@@ -110,8 +112,8 @@ theorem iFillClone_own {loc locB} (x : Nat) : ∀ (k : Nat) (s : St), OwnL s loc
       have h2 := h1.1.store hc'
       exact iFillClone_own x k _ h2 (by simp [h1.2]; omega)
 
-theorem iResize_own {s loc locB} (n : Nat) (h : OwnL s loc locB) :
-    OwnL (iResize n s).2 loc locB := by
+theorem iResize_own {s loc locB} (n : Nat) (h : OwnL fl s loc locB) :
+    OwnL fl (iResize n s).2 loc locB := by
   unfold iResize
   have h1 := h.mkVal
   generalize s.onMem Mem.mkVal = r at h1
@@ -123,8 +125,8 @@ theorem iResize_own {s loc locB} (n : Nat) (h : OwnL s loc locB) :
     · exact h1.dropId
   · exact (iTruncate_own n h1).dropId
 
-theorem iExtSlice_own {s loc locB} (n : Nat) (h : OwnL s loc locB) :
-    OwnL (iExtSlice n s).2 loc locB := by
+theorem iExtSlice_own {s loc locB} (n : Nat) (h : OwnL fl s loc locB) :
+    OwnL fl (iExtSlice n s).2 loc locB := by
   unfold iExtSlice
   obtain ⟨hl, hv, ho⟩ := mkVals_own n s h
   generalize mkVals n s = r at hl hv ho
@@ -134,9 +136,9 @@ theorem iExtSlice_own {s loc locB} (n : Nat) (h : OwnL s loc locB) :
   · exact OwnL.markDrops (iCloneIds_own srcs s1 ho (by omega))
   · exact OwnL.markDrops ho
 
-theorem iCloneSlots_own {loc locB} : ∀ (M : List Nat) (s : St), OwnL s loc locB →
+theorem iCloneSlots_own {loc locB} : ∀ (M : List Nat) (s : St), OwnL fl s loc locB →
     s.v.len + M.length ≤ s.v.cap → (∀ a ∈ M, a ∉ s.mem.out) →
-    OwnL (iCloneSlots (M.map .init) s).2 loc locB
+    OwnL fl (iCloneSlots (M.map .init) s).2 loc locB
   | [], _, h, _, _ => h
   | a :: as, s, h, hc, hm => by
     simp only [List.map_cons, iCloneSlots]
@@ -152,7 +154,7 @@ theorem iCloneSlots_own {loc locB} : ∀ (M : List Nat) (s : St), OwnL s loc loc
       exact hm c (List.mem_cons_of_mem _ hcm)
 
 /-- the slots `[a, b)` below `len` hold live ids -/
-theorem OwnL.range_live {s loc locB} (h : OwnL s loc locB) {a b : Nat} (hab : a ≤ b)
+theorem OwnL.range_live {s loc locB} (h : OwnL fl s loc locB) {a b : Nat} (hab : a ≤ b)
     (hb : b ≤ s.v.len) :
     ∃ M : List Nat, s.v.range a b = M.map .init ∧ M.length = b - a ∧ ∀ x ∈ M, x ∉ s.mem.out := by
   obtain ⟨L, rest, hl, hs, -, ha⟩ := h
@@ -166,8 +168,8 @@ theorem OwnL.range_live {s loc locB} (h : OwnL s loc locB) {a b : Nat} (hab : a 
     have := List.mem_of_mem_drop (List.mem_of_mem_take hx)
     simp [this]
 
-theorem iExtWithin_own {s loc locB} (a b : Nat) (h : OwnL s loc locB) :
-    OwnL (iExtWithin a b s).2 loc locB := by
+theorem iExtWithin_own {s loc locB} (a b : Nat) (h : OwnL fl s loc locB) :
+    OwnL fl (iExtWithin a b s).2 loc locB := by
   unfold iExtWithin
   split
   · split
@@ -178,8 +180,8 @@ theorem iExtWithin_own {s loc locB} (a b : Nat) (h : OwnL s loc locB) :
     · exact h
   · exact h
 
-theorem iExtIter_own {loc locB} : ∀ (k : Nat) (s : St), OwnL s loc locB →
-    OwnL (iExtIter k s).2 loc locB
+theorem iExtIter_own {loc locB} : ∀ (k : Nat) (s : St), OwnL fl s loc locB →
+    OwnL fl (iExtIter k s).2 loc locB
   | 0, _, h => h.tick
   | k + 1, s, h => by
     unfold iExtIter
